@@ -5,6 +5,7 @@ use substrate_fixed::traits::Fixed;
 use substrate_fixed::Wrapping;
 
 include!(concat!(env!("OUT_DIR"), "/dispatch.rs"));
+#[path = "../ext_serde.rs"] mod ext_serde;   // extension Serde: the serde representation (serdeize.rs) through serde_json / serde_cbor
 
 trait Bytes { fn to_vec(&self) -> Vec<u8>; fn from_slice(s: &[u8]) -> Self; }
 macro_rules! bytes { ($($n:expr),*) => { $( impl Bytes for [u8; $n] {
@@ -38,4 +39,4 @@ where F::Bits: Prim + Encode, F::Bytes: Bytes {
     }
 }
 
-fn main() { serve(|op, s, n, f, a| sfx_dispatch!(s, n, f, run(op, a))); }
+fn main() { serve(|op, s, n, f, a| if ext_serde::handles(op) { ext_serde::typed(op, s, n, f, a) } else { sfx_dispatch!(s, n, f, run(op, a)) }); }
